@@ -35,7 +35,7 @@ XXH64_hash_t XXH64_digest(const XXH64_state_t* s) { (void)s; return nondet_u64()
 #define CAPMAX 48
 #define SRCMAX 16
 static ZSTD_CCtx g_cctx;
-static BYTE g_arena[V_SLACK + CAPMAX + SRCMAX];
+static BYTE g_arena[1024 + V_SLACK + CAPMAX + SRCMAX];     /* 1024 front bytes: the window base (src - 1000) stays inside the arena */
 
 void harness(void)
 {
